@@ -99,7 +99,8 @@ type c16Fix struct {
 	tokens        []*c16Token
 	nonce         int
 	pipes         bool
-	namesRejected bool // the requested (hostile) index names were refused; benign ones are in use
+	namesRejected bool // a requested (hostile) index name was refused; its benign counterpart is in use
+	rejectedIdx   int
 	lastObs       *vexec.Obs
 }
 
@@ -117,9 +118,26 @@ var c16NamePairs = [][3]string{
 	{"auth", "ui", "vector"},
 	{"t", "t::u", "u"},
 	{"p", "p/q", "q"},
+	// the index the compiler handlers fall back to when a request names none, as the foreign
+	// index and as the token's own index
+	{"alpha", "mcp_memory", "gamma"},
+	{"mcp_memory", "Mcp_Memory", "mcp_memory2"},
+	// names that need escaping in a URL / look like the wildcard / like a field name
+	{"a b", "a+b", "a%2Fb"},
+	{"x", "*", "index_name"},
+	{"Aé", "aé", "A\u00c9"},
 }
 
+// c16DefaultTriple puts a handler's default index in the place of the foreign index.
+func c16DefaultTriple(def string) [3]string { return [3]string{"alpha", def, "gamma"} }
+
 var c16FixSeq int
+
+// c16Artifacts: whether populate compiles an artifact in every index. Set by the case before it
+// builds its fixture (cases of one process run one after the other). The artifact's metadata
+// makes every state read-out noticeably more expensive, so only the cases that can use it ask
+// for it: always for routes of a source file with a default index, a sample of the others.
+var c16Artifacts bool
 
 func c16Opts(dir string) engine.Options {
 	o := engine.DefaultOptions(dir)
@@ -134,17 +152,27 @@ func c16Opts(dir string) engine.Options {
 // ".." must never be able to leave the case's scratch directory) and builds the server.
 func newC16Fix(ctx *vkit.Ctx, cs *vkit.Case, names [3]string) *c16Fix {
 	f := buildC16Fix(ctx, cs, names)
-	if f.namesRejected {
+	rejected := false
+	for try := 0; f.namesRejected; try++ {
 		// the product refuses one of the hostile index names at creation time (a legitimate
-		// way to close a name-based hole): fall back to the benign triple
+		// way to close a name-based hole): only that name is replaced by its benign counterpart,
+		// the other hostile names stay
+		k := f.rejectedIdx
 		f.close()
 		ctx.Count("index_names_rejected_at_creation", 1)
-		f = buildC16Fix(ctx, cs, c16NamePairs[0])
-		if f.namesRejected {
-			cs.Fail("fixture: the product refuses to create the benign indexes %v", c16NamePairs[0])
+		if try >= 3 || names[k] == c16NamePairs[0][k] {
+			cs.Fail("fixture: the product refuses to create the benign index %q", names[k])
 		}
-		f.namesRejected = true
+		names[k] = c16NamePairs[0][k]
+		for j := range names {
+			if j != k && names[j] == names[k] {
+				names = c16NamePairs[0]
+			}
+		}
+		rejected = true
+		f = buildC16Fix(ctx, cs, names)
 	}
+	f.namesRejected = rejected
 	return f
 }
 
@@ -165,6 +193,12 @@ func buildC16Fix(ctx *vkit.Ctx, cs *vkit.Case, names [3]string) *c16Fix {
 		rs := f.do("POST", "/vector/actions/create", c16Root, b)
 		if rs.Code >= 400 && rs.Code < 500 && rs.Code != http.StatusConflict {
 			f.namesRejected = true
+			f.rejectedIdx = len(f.idx) - 1
+			for k := range f.idx {
+				if f.idx[k] == ix {
+					f.rejectedIdx = k
+				}
+			}
 			return f
 		}
 		if rs.Code >= 300 {
@@ -319,6 +353,20 @@ func (f *c16Fix) populate() {
 		link("n0", cid[1], "parent")
 		link("n2", "n0", "related_to")
 	}
+	// one compiled knowledge artifact per index ("art1" about entity doc/n0; its data carries the
+	// index's own canaries), so that /artifacts and /artifact/{name}* have something to serve
+	for _, ix := range f.idx {
+		if !c16Artifacts {
+			break
+		}
+		b, _ := json.Marshal(map[string]any{"name": "art1", "template": "entity_card", "index_name": ix.Name,
+			"sources": map[string]any{"type": "all", "entity": map[string]any{"type": "doc", "id": "n0"}}})
+		if rs := f.do("POST", "/compile", c16Root, b); rs.Code >= 200 && rs.Code < 300 {
+			f.ctx.Count("fixture_artifacts", 1)
+		} else {
+			f.ctx.Count("fixture_artifact_not_compiled", 1) // not a verdict: the artifact routes are then status tests only
+		}
+	}
 	for _, k := range f.kvKeys {
 		f.rootJSON("PUT", "/kv/"+strings.ReplaceAll(k, "/", "%2F"), map[string]any{"value": f.kvCan + "-" + k})
 	}
@@ -375,6 +423,7 @@ func (f *c16Fix) mint(role string, ns []string) *c16Token {
 // It only delays observation; no verdict depends on how long it took.
 func (f *c16Fix) settle() {
 	deadline := time.Now().Add(2 * time.Second)
+	idle, iter := 0, 0
 	for {
 		busy := false
 		if f.srv != nil && f.srv.taskManager != nil {
@@ -392,7 +441,16 @@ func (f *c16Fix) settle() {
 			busy = true
 		}
 		if f.baseG > 0 && runtime.NumGoroutine() > f.baseG {
-			busy = true
+			// goroutines that have finished their work and only sleep before returning (the
+			// 10 s "yield" at the end of a turbo-refine pass started by import/commit) are idle:
+			// read from the goroutine dump, re-read every 64 rounds
+			if iter%64 == 0 {
+				idle = c16IdleSleepers()
+			}
+			iter++
+			if runtime.NumGoroutine()-idle > f.baseG {
+				busy = true
+			}
 		}
 		if !busy {
 			return
@@ -569,4 +627,17 @@ func c16MutHits(h map[string]int64) (int64, string) {
 	}
 	sort.Strings(names)
 	return n, strings.Join(names, " ")
+}
+
+// c16IdleSleepers counts the goroutines that sit in the time.Sleep of GraphOptimizer.RunTurboRefine.
+func c16IdleSleepers() int {
+	buf := make([]byte, 1<<20)
+	buf = buf[:runtime.Stack(buf, true)]
+	n := 0
+	for _, g := range bytes.Split(buf, []byte("\n\n")) {
+		if bytes.Contains(g, []byte("time.Sleep")) && bytes.Contains(g, []byte(").RunTurboRefine(")) {
+			n++
+		}
+	}
+	return n
 }
